@@ -21,7 +21,7 @@ func init() {
 		if tier == "thorough" {
 			n = 2500
 		}
-		return Plan{Runs: n, Level: "exploration", Rule: "one run = 1-3 validator instances (own work_dirs; equal or different update intervals; provisioned at equal or different phases) with CRL sources from {crl_files, crl_urls, CDP}, signature mode, fetch mode and backend drawn per run; a refresh-outcome history fail^k then succeed (k = 0..3, failures from the origin fault menu incl. a newer list that fails signature verification); at t_p an acceptable newer version revoking a probe serial is published and faults stop; the scheduler is adversarial about which instance's refresh runs first; oracles: (a) every instance fetches every URL it knows in every window of 2*interval+eps after it learnt it, (b) at t_p + 3*interval + eps every instance rejects the newly revoked serial, (c) configured crl_files/crl_urls are in force when Provision returns; non-trivial = more than one instance, or at least one failed refresh before t_p; distinct = distinct (scenario, schedule) fingerprints"}
+		return Plan{Runs: n, Level: "exploration", Rule: "one run = 1-3 validator instances (own work_dirs; equal or different update intervals; provisioned at equal or different phases) with CRL sources from {crl_files, crl_urls, CDP}, signature mode, fetch mode and backend drawn per run; a refresh-outcome history fail^k then succeed (k = 0..3; for a third of the CDP sources already the first load fails, failures from the origin fault menu incl. a newer list that fails signature verification); at t_p an acceptable newer version revoking a probe serial is published and faults stop; the scheduler is adversarial about which instance's refresh runs first; oracles: (a) every instance fetches every URL it knows in every window of 2*interval+eps after it learnt it, (b) at t_p + 3*interval + eps every instance rejects the newly revoked serial, (c) configured crl_files/crl_urls are in force when Provision returns; non-trivial = more than one instance, or at least one failed refresh before t_p; distinct = distinct (scenario, schedule) fingerprints"}
 	}, Run: runC15})
 	register(&PropDef{ID: "C20", Plan: func(tier string) Plan {
 		n := 140
@@ -73,7 +73,22 @@ func runC15(h *Harness) {
 			maxIvl = ivl
 		}
 		source := Pick(tp, "cdp", "url", "file")
-		loc := w.NewLocation(LocOpts{Name: fmt.Sprintf("L%d", i+1), URL: fmt.Sprintf("http://crl%d.sim/x.crl", i+1), Issuer: w.A, NVers: 2, Extra: Pick(tp, 2, 40), Width: 8 + i, Base: uint32(i)})
+		lo := LocOpts{Name: fmt.Sprintf("L%d", i+1), URL: fmt.Sprintf("http://crl%d.sim/x.crl", i+1), Issuer: w.A, NVers: 2, Extra: Pick(tp, 2, 40), Width: 8 + i, Base: uint32(i)}
+		// what distinguishes the newer list from the one in force is its content and signature, nothing else need differ
+		switch meta := Pick(tp, "", "", "", "same-times", "no-number-v2", "no-number-v1", "same-number", "same-times+same-number"); meta {
+		case "same-times":
+			lo.SameTimes = true
+		case "no-number-v2":
+			lo.NoNumber = 1
+		case "no-number-v1":
+			lo.NoNumber = 2
+		case "same-number":
+			lo.SameNumber = true
+		case "same-times+same-number":
+			lo.SameTimes, lo.SameNumber = true, true
+		}
+		sc[fmt.Sprintf("meta%d", i+1)] = fmt.Sprintf("same_times=%v no_number=%d same_number=%v", lo.SameTimes, lo.NoNumber, lo.SameNumber)
+		loc := w.NewLocation(lo)
 		cfg := NodeCfg{Mode: "crl_only", Storage: backend, UpdateInterval: ivl.String(), SigMode: sig, FetchMode: fetch, CDPStrict: false, TrustedSigFiles: trusted}
 		in := &inst{ivl: ivl, loc: loc, source: source}
 		switch source {
@@ -111,12 +126,21 @@ func runC15(h *Harness) {
 		}
 	}
 	// CDP locations are learnt by a first handshake
+	// (a third of them while the origin misbehaves: the entry then exists without ever having been loaded, and it is the
+	// periodic update that has to load it for the first time once the origin recovers)
+	firstLoadFails := 0
 	for _, in := range insts {
 		if in.source == "cdp" {
+			if tp.Chance(1, 3) {
+				in.loc.State = Pick(tp, oDown, oHTTP500, oGarbage, oTrunc)
+				firstLoadFails++
+				h.R.NonTrivial = true
+			}
 			h.Handshake(in.n, "learn", w.ChainFor(in.loc.Cert(in.loc.Never[0]), w.A))
 			in.learnt = h.S.Now()
 		}
 	}
+	sc["first_load_fails"] = firstLoadFails
 	h.Quiesce()
 	// fail^k: k refresh periods during which the origins misbehave
 	faults := []string{oDown, oHTTP500, oGarbage, oTrunc, oEmpty, "badsig", "stranger"}
